@@ -83,8 +83,9 @@ enum Role { ADMIN MEMBER }
 input Paging { first: Int after: String }
 union SearchResult = User | Photo
 union Media = Photo | Album
-type Query { node(id: ID!): Node search: [SearchResult] best: SearchResult me: User settings: Settings feed: [Media] named: [Named] board: [[Cell!]!]! cube: [[[Cell]]] }
+type Query { node(id: ID!): Node search: [SearchResult] best: SearchResult me: User settings: Settings feed: [Media] named: [Named] board: [[Cell!]!]! cube: [[[Cell]]] theInventoryOfEverythingThisOrganisationHasEverOwnedOrLeasedSince1970: OrganisationInventoryReportingPeriodAggregateConnectionEdge }
 type Cell { value: Int owner: User }
+type OrganisationInventoryReportingPeriodAggregateConnectionEdge implements Node { id: ID! totalNumberOfItemsAcquiredDuringTheReportingPeriod: Int owner: User }
 type User implements Node & Named { id: ID! name: String firstName: String! role: Role joined: Date }
 type Photo implements Node { id: ID! url: String }
 type Album implements Node & Named { id: ID! name: String title: String }
@@ -98,6 +99,7 @@ type Query { node(id: ID!): Node allPhotos: [Photo] latest: Media }
 type User implements Node { id: ID! lastName: String photos: [Photo] favorite: Media }
 type Photo implements Node { id: ID! likes: Int owner: User taken: Date }
 type Album implements Node { id: ID! photos: [Photo] cover: Photo }
+type OrganisationInventoryReportingPeriodAggregateConnectionEdge implements Node { id: ID! totalNumberOfItemsWrittenOffDuringTheReportingPeriodAndNotReplaced: Int }
 `
 	return FedSpec{SDLs: map[string]string{"A": a, "B": b}, Order: []string{"A", "B"}, Owners: map[string][]string{}}
 }
@@ -109,6 +111,8 @@ var kindsFixed = []planCase{
 	{ID: "kinds-union-both-services", Query: `{ latest { __typename ... on Photo { url likes } } me { favorite { __typename } } }`, Valid: true},
 	{ID: "kinds-interface-typename", Query: `{ named { __typename name ... on User { lastName role joined } } }`, Valid: true},
 	{ID: "kinds-list-of-lists", Query: `{ board { value } cube { value owner { lastName } } }`, Valid: true},
+	// names as generated schemas have them: type name plus field name well beyond 64 and 128 characters
+	{ID: "kinds-long-names", Query: `{ theInventoryOfEverythingThisOrganisationHasEverOwnedOrLeasedSince1970 { totalNumberOfItemsAcquiredDuringTheReportingPeriod totalNumberOfItemsWrittenOffDuringTheReportingPeriodAndNotReplaced owner { lastName } } }`, Valid: true},
 	{ID: "kinds-plain-object", Query: `{ settings { theme since owner { lastName role } } }`, Valid: true},
 }
 
